@@ -80,26 +80,23 @@ func (p *Parser) Parse(source string) (Node, error) {
 		tokenizer.ApplyWhitespaceControl()
 	}
 
-	// Return the tokenizer to the pool
-	ReleaseTokenizer(tokenizer)
-
 	if err != nil {
+		ReleaseTokenizer(tokenizer)
 		return nil, fmt.Errorf("tokenization error: %w", err)
 	}
 
 	// Template tokenization complete
 	// Whitespace control has already been applied by the tokenizer
 
-	// Parse tokens into nodes
+	// Parse tokens into nodes. The token slice is the tokenizer's own buffer, so the
+	// tokenizer goes back to its pool only after the last token has been read (another
+	// goroutine may pick it up at once), and the buffer is not pooled a second time.
 	nodes, err := p.parseOuterTemplate()
+	p.tokens = nil
+	ReleaseTokenizer(tokenizer)
 	if err != nil {
-		// Clean up token slice on error
-		ReleaseTokenSlice(p.tokens)
 		return nil, fmt.Errorf("parsing error: %w", err)
 	}
-
-	// Clean up token slice after successful parsing
-	ReleaseTokenSlice(p.tokens)
 
 	return NewRootNode(nodes, 1), nil
 }
